@@ -8,5 +8,5 @@ mkdir -p $w/repo $w/verif
 cp /verif/known_findings.json $w/verif/
 R=$w/repo python3 - || { echo "edit failed"; rm -rf $w; exit 2; }
 (cd $w/repo && GOFLAGS=-mod=mod GOPROXY=off GOSUMDB=off GOTOOLCHAIN=local go build ./... 2>&1 | head -5)
-CBGP_REPO=$w/repo CBGP_VERIF=$w/verif /verif/bin/cbgpcheck check ${PROPS:-all} 2>&1 | grep -E "^  (violated|undecided)|^VIOLATION" | cut -c1-${W:-260}
+CBGP_REPO=$w/repo CBGP_VERIF=$w/verif ${BIN:-/verif/bin/cbgpcheck} check ${PROPS:-all} 2>&1 | grep -E "^  (violated|undecided)|^VIOLATION" | cut -c1-${W:-260}
 rm -rf $w
